@@ -372,4 +372,22 @@ func genC21(g *gen) {
 		authOK = validCalls == 1 && checkPos != token.NoPos && okReturns == 1 && okAfter == 1 && usesOnlyDummy(fd)
 	}
 	g.line("Definition gen_authenticate_succeeds_only_after_valid : bool := %s.", coqBool(authOK))
+
+	// Authenticate reads user name and password into buffers it allocates with the length it just read
+	// (no fixed-size scratch buffer), and neither Handle nor authenticate turns a panic into a normal return
+	g.line("Definition gen_authenticate_buffers_are_fresh : bool := %s.", coqBool(freshBuffers(findFunc(auth, "UserPassAuthenticator", "Authenticate"), false)))
+	hfile := parseFile("internal/socks5/handler.go")
+	noRecover := true
+	for _, fn := range []string{"Handle", "authenticate"} {
+		if fd := findFunc(hfile, "Handler", fn); fd != nil && fd.Body != nil {
+			calls(fd.Body, func(c *ast.CallExpr) {
+				if calleeName(c) == "recover" {
+					noRecover = false
+				}
+			})
+		} else {
+			noRecover = false
+		}
+	}
+	g.line("Definition gen_handshake_does_not_swallow_panics : bool := %s.", coqBool(noRecover))
 }
